@@ -199,6 +199,10 @@ def nontrivial_key(c, st):
 def explore(prop, tier, rep, cases, precomputed=None, tie_cats=None):
     """gates 2 and 3 on a list of history cases"""
     oracle_cats, tie_cats = ORACLE[prop], (tie_cats if tie_cats is not None else TIE[prop])
+    if precomputed is None:
+        # every fifth generated case with sibling names one of which is a string prefix of the other (a, ab)
+        cases = [gen.rename_components(c, {'b': 'ab'}) if (i % 5 == 2 and not str(c.get('seed', '')).startswith('corpus:') and c.get('kind', 'hist') == 'hist')
+                 else c for i, c in enumerate(cases)]
     results = precomputed if precomputed is not None else hist.run_batch(cases)
     agg = {}
     n_oracle = n_tie = 0
